@@ -156,7 +156,11 @@ Extract(op) ==
                    /\ res' = Ok(LenOf(b))
                    /\ UNCHANGED <<buckets, store, tmp, hasIndex, hd>>
          ELSE IF op.to \in DOMAIN ext
-              THEN res' = Err("IoExists") /\ UNCHANGED <<disk, hd>>      \* links refuse
+              THEN \* links refuse an existing destination; reflink-copy rewrites every error as
+                   \* InvalidInput when the source path itself is not a regular file (a symlink)
+                   /\ res' = IF op.kind = "reflink" /\ store[Addr(sri)].k = "link"
+                             THEN Err("IoOther") ELSE Err("IoExists")
+                   /\ UNCHANGED <<disk, hd>>
          ELSE IF op.kind = "reflink" /\ ~ReflinkOK
               THEN res' = Err("IoOther") /\ UNCHANGED <<disk, hd>>
          ELSE /\ ext' = Upd(ext, op.to, b)
